@@ -356,3 +356,23 @@ def shard(ctx):
             for cmd in de_cmds[:400:100]:
                 rep.sample({"event_de": cmd["enum"], "text": cmd["text"][:350]})
             rep.sample({"content_roundtrip": rt_cmds[0]})
+
+
+def post(rep, tier, seed):
+    """thorough: Raw::cast_ref (a transmute) / clone / get_field and typed deserialization on a
+    recorded sample, interpreted by Miri."""
+    if tier != "thorough":
+        return {"miri": "thorough tier only"}
+    import random
+    from .. import miri
+    rng = random.Random(seed)
+    cmds = []
+    for _ in range(160):
+        kind = rng.choice(["state", "message"])
+        etype, content, state_key, redacts = gen_room_event(rng, kind)
+        ev = ge.envelope(rng, etype, content, "sync", state_key=state_key, redacts=redacts)
+        text = g.render(ev, rng, dups=True) if rng.random() < 0.5 else fmt(ev)
+        cmds.append({"op": "raw_ops", "text": text, "fields": list(ev.keys())[:4] + ["missing"]})
+        if rng.random() < 0.3:
+            cmds.append({"op": "event_de", "enum": "AnySyncTimelineEvent", "text": fmt(ev)})
+    return {"miri": miri.layer(rep, cmds, seed=seed)}
